@@ -290,6 +290,46 @@ func (p *tokStream) gerr() (*gerr, bool) {
 
 // ---- applying one op to the real code
 
+// rev: the optional flag `rev` in front of the value of a decenc / casedec / casedec.err op.  The token
+// form of an object lists its members sorted by name (it is a map: the model does not see member order),
+// so the text rendered from it has them in that order; with `rev` the text has the members of EVERY object
+// in the reverse order.  Names that differ in case only sort next to each other, upper case first: without
+// the flag "Code" stands before "code" in the text, with it after.
+func (p *tokStream) rev() bool {
+	if p.peek() == "rev" {
+		p.next()
+		return true
+	}
+	return false
+}
+
+func reverseMembers(v jv) jv {
+	switch v.k {
+	case 'a':
+		out := v
+		out.a = make([]jv, len(v.a))
+		for i, x := range v.a {
+			out.a[i] = reverseMembers(x)
+		}
+		return out
+	case 'o':
+		out := v
+		n := len(v.o)
+		out.o = make([]jmem, n)
+		for i, m := range v.o {
+			out.o[n-1-i] = jmem{m.k, reverseMembers(m.v)}
+		}
+		if len(v.oq) == n {
+			out.oq = make([]jkq, n)
+			for i := range v.oq {
+				out.oq[n-1-i] = v.oq[i]
+			}
+		}
+		return out
+	}
+	return v
+}
+
 func wireApply(op string) (obs string) {
 	defer func() {
 		if r := recover(); r != nil {
@@ -314,9 +354,13 @@ func wireApply(op string) (obs string) {
 		back, _ := decTok(data)
 		return tokJSON(data) + " | " + back
 	case "decenc":
+		rev := p.rev()
 		w, ok := p.jv()
 		if !ok {
 			return "bad-op"
+		}
+		if rev {
+			w = reverseMembers(w)
 		}
 		res, msg := decTok([]byte(w.text()))
 		if msg == nil {
@@ -330,10 +374,14 @@ func wireApply(op string) (obs string) {
 	case "casedec":
 		// the member named <name> differs from a struct member name in case only: decoding must
 		// treat it like an unknown member, i.e. like the same object without it
+		rev := p.rev()
 		name, ok1 := p.str()
 		w, ok2 := p.jv()
 		if !ok1 || !ok2 {
 			return "bad-op"
+		}
+		if rev {
+			w = reverseMembers(w)
 		}
 		res, _ := decTok([]byte(w.text()))
 		without := jv{k: 'o'}
@@ -341,6 +389,35 @@ func wireApply(op string) (obs string) {
 			if m.k != name {
 				without.o = append(without.o, m)
 			}
+		}
+		res2, _ := decTok([]byte(without.text()))
+		return res + " | " + res2
+	case "casedec.err":
+		// the member named <name> INSIDE the error object differs from a WireError member name (code,
+		// message, data) in case only: decoding must treat it like an unknown member, i.e. like the same
+		// message whose error object does not have it
+		rev := p.rev()
+		name, ok1 := p.str()
+		w, ok2 := p.jv()
+		if !ok1 || !ok2 {
+			return "bad-op"
+		}
+		if rev {
+			w = reverseMembers(w)
+		}
+		res, _ := decTok([]byte(w.text()))
+		without := jv{k: 'o'}
+		for _, m := range w.o {
+			if m.k == "error" && m.v.k == 'o' {
+				e := jv{k: 'o'}
+				for _, em := range m.v.o {
+					if em.k != name {
+						e.o = append(e.o, em)
+					}
+				}
+				m.v = e
+			}
+			without.o = append(without.o, m)
 		}
 		res2, _ := decTok([]byte(without.text()))
 		return res + " | " + res2
@@ -506,6 +583,13 @@ func genMsg(r *rand.Rand) wmsg {
 	}
 }
 
+func revTok(r *rand.Rand) string {
+	if r.Intn(2) == 0 {
+		return "rev "
+	}
+	return ""
+}
+
 func genMethod(r *rand.Rand) string {
 	ms := []string{"ping", "tools/call", "notifications/progress", "initialize", "x", "é/ü", "a b", "M"}
 	if r.Intn(40) == 0 {
@@ -566,6 +650,64 @@ func genWire(r *rand.Rand) jv {
 		w = spellJ(r, w, []int{15, 50, 100}[r.Intn(3)])
 	}
 	return w
+}
+
+// caseVariant: a name that differs from s in letter case only.
+func caseVariant(r *rand.Rand, s string) string {
+	switch r.Intn(4) {
+	case 0:
+		return strings.ToUpper(s)
+	case 1:
+		return strings.ToUpper(s[:1]) + s[1:]
+	default:
+		return flipCase(r, s)
+	}
+}
+
+// errDecoy: a member for the error object whose name differs from the WireError member `name` in case
+// only, holding a value of the kind the real member holds (so that a decoder that matches names without
+// regard to case takes it).
+func errDecoy(r *rand.Rand, name string) jmem {
+	var v jv
+	switch name {
+	case "code":
+		v = jInt(int64(r.Intn(200000) - 100000))
+	case "message":
+		v = jStr("decoy-" + genStr(r))
+	default:
+		v = genJ(r, 1)
+	}
+	return jmem{caseVariant(r, name), v}
+}
+
+// genErrObj: the error object of a response as a peer may send it.  Mostly exactly code, message and
+// optional data; 30% carry what a foreign peer may add and the codec must not be confused by: members
+// whose names differ from code / message / data in case only (the real members stay; the op's `rev` flag
+// decides whether they come before or after them in the text), unknown members; 4% spell an integral code as a
+// fractional or exponent number (-32601.0, -32e3: outside the property's domain, the id rule applies:
+// model and code must agree, the monitors do not judge).
+func genErrObj(r *rand.Rand, we *werr) jv {
+	code := jBig(we.code)
+	if r.Intn(25) == 0 {
+		code = []jv{jDec("-32601", 0), jDec("-32", 3), jDec("7", 0), jDec("1", 2), jDec("-326", 2)}[r.Intn(5)]
+	}
+	e := []jmem{{"code", code}, {"message", jStr(we.msg)}}
+	if we.data != nil {
+		e = append(e, jmem{"data", *we.data})
+	}
+	if r.Intn(100) < 30 {
+		names := []string{"code", "message", "data"}
+		for n := 1 + r.Intn(3); n > 0; n-- {
+			switch r.Intn(5) {
+			case 0:
+				e = append(e, jmem{genStr(r) + "_y", genJ(r, 1)})
+			default:
+				e = append(e, errDecoy(r, names[r.Intn(3)]))
+			}
+		}
+		r.Shuffle(len(e), func(i, j int) { e[i], e[j] = e[j], e[i] })
+	}
+	return jObj(e...)
 }
 
 func mutateWire(r *rand.Rand, w jv) jv {
@@ -655,7 +797,7 @@ func runCases(t *testing.T, out *verifOut, stream string, apply func(string) str
 		var mine []string
 		for _, op := range readOps(t, rp) {
 			switch k := strings.Fields(op)[0]; {
-			case stream == "ids" && k == "idecho", stream == "msg" && (k == "encdec" || k == "decenc" || k == "casedec" || k == "werr" || k == "fuzzdec"):
+			case stream == "ids" && k == "idecho", stream == "msg" && (k == "encdec" || k == "decenc" || k == "casedec" || k == "casedec.err" || k == "werr" || k == "fuzzdec"):
 				mine = append(mine, op)
 			}
 		}
@@ -702,7 +844,7 @@ func msgTags(op, obs string) []string {
 		if len(f) > 2 {
 			tags = append(tags, "id:"+idClass(f[2]))
 		}
-	case "decenc", "casedec":
+	case "decenc", "casedec", "casedec.err":
 		if strings.HasPrefix(obs, "ok req") {
 			tags = append(tags, "dec:request")
 		} else if strings.HasPrefix(obs, "ok resp") {
@@ -719,7 +861,7 @@ func msgTags(op, obs string) []string {
 	if obs == "panic" {
 		tags = append(tags, "panic")
 	}
-	if kind == "decenc" || kind == "casedec" || kind == "idecho" {
+	if kind == "decenc" || kind == "casedec" || kind == "casedec.err" || kind == "idecho" {
 		tags = append(tags, spellTags(op)...)
 	}
 	return tags
@@ -791,7 +933,7 @@ func TestVerifWireMsg(t *testing.T) {
 				ops = append(ops, "encdec "+genMsg(r).tok())
 			}
 			for i := 0; i < 5; i++ {
-				ops = append(ops, "decenc "+genWire(r).tok())
+				ops = append(ops, "decenc "+revTok(r)+genWire(r).tok())
 			}
 			// case sensitivity: one member name of a valid message changed in case
 			{
@@ -801,6 +943,34 @@ func TestVerifWireMsg(t *testing.T) {
 					w.o[i].k = flipCase(r, w.o[i].k)
 					ops = append(ops, "casedec s"+hxs(w.o[i].k)+" "+w.tok())
 				}
+			}
+			// case sensitivity INSIDE the error object: a response whose error object has a member differing
+			// from code / message / data in case only — in addition to the real member (before or after it) or
+			// instead of it
+			{
+				we := genWErr(r)
+				e := []jmem{{"code", jBig(we.code)}, {"message", jStr(we.msg)}}
+				if we.data != nil {
+					e = append(e, jmem{"data", *we.data})
+				}
+				var name string
+				if r.Intn(3) == 0 { // instead of the real member
+					i := r.Intn(len(e))
+					e[i].k = caseVariant(r, e[i].k)
+					name = e[i].k
+				} else {
+					base := []string{"code", "message", "data"}[r.Intn(3)]
+					d := errDecoy(r, base)
+					name = d.k
+					e = append(e, d)
+					r.Shuffle(len(e), func(i, j int) { e[i], e[j] = e[j], e[i] })
+				}
+				mem := []jmem{{"jsonrpc", jStr("2.0")}, {"id", genIDValue(r)}, {"error", jObj(e...)}}
+				if r.Intn(3) == 0 {
+					mem = append(mem, jmem{"result", genJ(r, 1)})
+				}
+				r.Shuffle(len(mem), func(i, j int) { mem[i], mem[j] = mem[j], mem[i] })
+				ops = append(ops, "casedec.err "+revTok(r)+"s"+hxs(name)+" "+jObj(mem...).tok())
 			}
 			ops = append(ops, "werr "+genGErr(r, 3).tok())
 			// byte-level fuzz of DecodeMessage
